@@ -28,8 +28,19 @@ try:
     for cand in re.findall(r"([\w/]+)/?\s", demo[:600]):
         pass
     # directory: look for a hint in the header comment, default align/
-    hint = re.search(r"(?:placed? in|directory)[^\n]*?\b((?:align|io/\w+|distance/\w+|models(?:/\w+)?|stats|cmd|gutils))/?", demo[:800])
-    pkgdir = hint.group(1) if hint else "align"
+    pkgbase = re.sub(r"_test$", "", m.group(1)) if m else "align"
+    cands = re.findall(r"\b((?:io|distance|models)/\w+|align|models|stats|cmd|gutils)\b/?", demo[:1200])
+    pkgdir = None
+    for cnd in cands:
+        if os.path.isdir(os.path.join(wt, cnd)) and os.path.basename(cnd) == pkgbase:
+            pkgdir = cnd
+            break
+    if pkgdir is None:
+        for root, dirs, files in os.walk(wt):
+            if os.path.basename(root) == pkgbase and any(f.endswith(".go") for f in files):
+                pkgdir = os.path.relpath(root, wt)
+                break
+    pkgdir = pkgdir or "align"
     rc, out = sh("git apply %s" % patch, cwd=wt); res["apply_rc"] = rc
     assert rc == 0, out
     rc, out = sh("go build ./...", cwd=wt); res["build_rc"] = rc
